@@ -487,6 +487,13 @@ def hosvd_driver_rule(run, repo, tier):
                         # the weights enter the last mode only
                         if rew and any(a_ is w for a_ in anc_k.values()) != (k == p - 1):
                             bad.append(f'the weights {"do not enter" if k == p - 1 else "enter"} the core of mode {k}')
+            # the reduced matrix of the non-reversible generator is not symmetric: its eigenpairs are complex in general (rotational drift) and are returned as they are
+            if not rev:
+                for e in sc.events('real-part'):
+                    pv_ = e['array'].tags.get('prov')
+                    if isinstance(pv_, dict) and 'eig' in pv_ and e.get('fn') is not None and e['fn'].mod == MOD:
+                        bad.append(f'the eigen{"values" if pv_.get("role") == "w" else "vectors"} of the reduced matrix are replaced by their real parts (complex-conjugate pairs of a generator with '
+                                   f'rotational drift collapse to a double real value)')
             run.oblige('D3', (entry, scen, tuple(ch)), not bad, sample={'rule': 'D3', 'scenario': scen, 'decompositions': len(calls)} if not rew and not rev and not rel else None)
             if bad:
                 run.add(Finding('C19', 'D3', fn.where, 'HOSVD driver', f'{scen}: ' + '; '.join(sorted(set(bad))[:3]), fn.file, fn.node.lineno))
